@@ -1226,7 +1226,12 @@ pub fn cast(into: DataType) -> impl Function {
                 }),
             ))
         }
-        _ => todo!(),
+        // No value implementation for the other targets: the image is the target type
+        into => Polymorphic::default().with(Pointwise::new(
+            DataType::Any,
+            into.clone(),
+            Arc::new(move |v| Err(Error::other(format!("Cannot cast {v} as {into}")))),
+        )),
     }
 }
 
